@@ -91,17 +91,18 @@ var vcrErrStub = errors.New("verif: secondary registrar failed")
 
 // ------------------------------------------------------------------------------------------------ world (shared)
 type vcrWorld struct {
-	srv      *httptest.Server
-	resp     *responder.Responder
-	dnsAddr  string
-	dnsPub   []byte
-	domain   string
-	runs     sync.Map // id / hex(secret) -> *vcrRun
-	nextID   atomic.Int64
-	slow     bool
-	hangs    atomic.Int64
-	panics   atomic.Int64
-	assetDir string
+	srv       *httptest.Server
+	resp      *responder.Responder
+	dnsAddr   string
+	dnsPub    []byte
+	domain    string
+	runs      sync.Map // id / hex(secret) -> *vcrRun
+	nextID    atomic.Int64
+	slow      bool
+	abortWait time.Duration // how long a cancelled request in flight may take to be given up (default 60 ms)
+	hangs     atomic.Int64
+	panics    atomic.Int64
+	assetDir  string
 }
 
 func vcrNewWorld(t testing.TB) *vcrWorld {
@@ -162,6 +163,8 @@ type vcrRun struct {
 	conns   []net.Conn
 	sess    *tapdance.ConjureSession
 	retd    atomic.Bool
+	tcpSess atomic.Int64 // TCP connections dialled through ConjureSession.Dialer
+	udpVia  atomic.Value // "session" | "config": which dialer established the DNS transport
 }
 
 func (r *vcrRun) emit(ev vcrEv) vcrEv {
@@ -221,7 +224,10 @@ func (r *vcrRun) doCancel(at string) {
 	if at != "inflight" {
 		return
 	}
-	wait := 60 * time.Millisecond
+	wait := r.w.abortWait
+	if wait == 0 {
+		wait = 60 * time.Millisecond
+	}
 	if r.w.slow {
 		wait = 1500 * time.Millisecond
 	}
@@ -318,6 +324,8 @@ func (w *vcrWorld) serveHTTP(rw http.ResponseWriter, rq *http.Request) {
 			src = "wrong-secret"
 		} else if wrap.GetRegistrationPayload().GetCovertAddress() != r.sess.CovertAddress {
 			src = "wrong-covert"
+		} else if r.s.NilClient && r.tcpSess.Load() == 0 {
+			src = "not-dialled-through-session-dialer" // setHTTPClient: t.DialContext = reg.Dialer
 		}
 	}
 	r.drainFail()
@@ -341,7 +349,7 @@ func (w *vcrWorld) serveHTTP(rw http.ResponseWriter, rq *http.Request) {
 		select {
 		case <-rq.Context().Done():
 		case <-r.release:
-		case <-time.After(3 * time.Second):
+		case <-time.After(1 * time.Second):
 		}
 		if a.O == "" {
 			return
@@ -403,6 +411,8 @@ func (w *vcrWorld) serveDNS(payload []byte) ([]byte, error) {
 		src = "wrong-covert"
 	} else if !net.IP(wrap.GetRegistrationAddress()).Equal(net.IP{203, 0, 113, 9}) {
 		src = "wrong-registration-address"
+	} else if via, _ := r.udpVia.Load().(string); via != "session" {
+		src = "not-dialled-through-session-dialer" // dns-registrar.go:91: the session's dialer replaces the requester's
 	}
 	r.drainFail()
 	r.mu.Lock()
@@ -465,7 +475,12 @@ func (c *vcrUDP) Read(b []byte) (int, error) {
 
 // the session's dialer (ConjureSession.Dialer): TCP for the API registrar's own http.Client, UDP for the DNS requester
 func (r *vcrRun) dial(ctx context.Context, network, laddr, raddr string) (net.Conn, error) {
+	return r.dialVia("session", ctx, network, raddr)
+}
+
+func (r *vcrRun) dialVia(via string, ctx context.Context, network, raddr string) (net.Conn, error) {
 	if strings.HasPrefix(network, "udp") {
+		r.udpVia.Store(via)
 		ri := 0
 		if r.s.Cfg.Kind != "dns" {
 			ri = 1
@@ -489,6 +504,9 @@ func (r *vcrRun) dial(ctx context.Context, network, laddr, raddr string) (net.Co
 	}
 	var d net.Dialer
 	c, err := d.DialContext(ctx, network, raddr)
+	if via == "session" {
+		r.tcpSess.Add(1)
+	}
 	if err == nil {
 		r.mu.Lock()
 		r.conns = append(r.conns, c)
@@ -575,7 +593,9 @@ type vcrSecDNS struct {
 	inner *DNSRegistrar
 }
 
-func (s *vcrSecDNS) PrepareRegKeys(k [32]byte, sec []byte) error { return s.inner.PrepareRegKeys(k, sec) }
+func (s *vcrSecDNS) PrepareRegKeys(k [32]byte, sec []byte) error {
+	return s.inner.PrepareRegKeys(k, sec)
+}
 func (s *vcrSecDNS) Register(sess *tapdance.ConjureSession, ctx context.Context) (*tapdance.ConjureReg, error) {
 	s.r.emit(vcrEv{"a": "Fallback", "to": "dns", "cancelled": ctx.Err() != nil})
 	return s.inner.Register(sess, ctx)
@@ -584,7 +604,7 @@ func (s *vcrSecDNS) Register(sess *tapdance.ConjureSession, ctx context.Context)
 func (r *vcrRun) newDNS(bidi bool, max int, ri int) (*DNSRegistrar, *requester.Requester, error) {
 	rq, err := requester.NewRequester(&requester.Config{TransportMethod: requester.UDP, Target: r.w.dnsAddr, BaseDomain: r.w.domain,
 		Pubkey: r.w.dnsPub, DialTransport: func(ctx context.Context, network, addr string) (net.Conn, error) {
-			return r.dial(ctx, network, "", addr)
+			return r.dialVia("config", ctx, network, addr)
 		}})
 	if err != nil {
 		return nil, nil, err
@@ -664,7 +684,7 @@ func (w *vcrWorld) vcrExec(s vcrScript) (events []vcrEv) {
 		}
 		if !s.NilClient {
 			httpTr = &http.Transport{DialContext: func(ctx context.Context, network, addr string) (net.Conn, error) {
-				return r.dial(ctx, network, "", addr)
+				return r.dialVia("config", ctx, network, addr)
 			}}
 			c.HTTPClient = &http.Client{Transport: httpTr}
 		}
@@ -711,7 +731,7 @@ func (w *vcrWorld) vcrExec(s vcrScript) (events []vcrEv) {
 	var x res
 	select {
 	case x = <-ch:
-	case <-time.After(20 * time.Second):
+	case <-time.After(5 * time.Second):
 		w.hangs.Add(1)
 		r.emit(vcrEv{"a": "Hang"})
 		return
@@ -950,6 +970,18 @@ func TestVerifClientRegReplay(t *testing.T) {
 			return
 		}
 		s.NilClient = j.idx%2 == 1
+		// the specification's status classes are exercised at their boundaries as well: 2xx = 200..299
+		for k := range s.Att[0] {
+			a := &s.Att[0][k]
+			switch {
+			case a.O == "s404":
+				a.Status = []int{404, 300, 400}[(j.idx+k)%3]
+			case a.O == "s500":
+				a.Status = []int{500, 599, 503}[(j.idx+k)%3]
+			case len(a.O) == 2 && a.O != "R0":
+				a.Status = []int{0, 299, 201}[(j.idx+k)%3]
+			}
+		}
 		got := vcrStrip(w.vcrExec(s))
 		d := vcrFirstDiff(j.b, got)
 		if d < 0 {
@@ -984,7 +1016,15 @@ func TestVerifClientRegReplay(t *testing.T) {
 			}
 		}()
 	}
+	skipped := 0
 	for i, b := range behs {
+		retryMu.Lock()
+		nr := len(retry)
+		retryMu.Unlock()
+		if nr >= 150 {
+			skipped = len(behs) - i // the code is plainly different: no point in sitting out every time-out
+			break
+		}
 		jobs <- job{i, b}
 	}
 	close(jobs)
@@ -992,11 +1032,14 @@ func TestVerifClientRegReplay(t *testing.T) {
 	// anything that differed is run once more, alone and with generous waiting times (timing-derived fields)
 	w.slow = true
 	nretry := len(retry)
+	if len(retry) > 12 {
+		retry = retry[:12]
+	}
 	for _, j := range retry {
 		run(j, true)
 	}
 	o.Emit(map[string]any{"kind": "summary", "behaviours": len(behs), "steps": steps.Load(), "mismatches": mism.Load(),
-		"retried": nretry, "hangs": w.hangs.Load(), "panics": w.panics.Load()})
+		"retried": nretry, "skipped": skipped, "hangs": w.hangs.Load(), "panics": w.panics.Load()})
 }
 
 // ------------------------------------------------------------------------------------------------ stage C
@@ -1045,9 +1088,9 @@ func vcrRandomScript(rng *rand.Rand) vcrScript {
 			}
 			switch a.O {
 			case "s404":
-				a.Status = []int{400, 401, 403, 404, 429, 304}[rng.Intn(6)]
+				a.Status = []int{300, 304, 400, 401, 403, 404, 429, 499}[rng.Intn(8)]
 			case "s500":
-				a.Status = []int{500, 502, 503, 504}[rng.Intn(4)]
+				a.Status = []int{500, 502, 503, 504, 599}[rng.Intn(5)]
 			case "garbage":
 				a.Garbage = rng.Intn(3)
 				if kind == "api" {
@@ -1059,7 +1102,7 @@ func vcrRandomScript(rng *rand.Rand) vcrScript {
 				}
 			default:
 				if kind == "api" && len(a.O) == 2 {
-					a.Status = []int{0, 200, 201, 202}[rng.Intn(4)]
+					a.Status = []int{0, 200, 201, 202, 299}[rng.Intn(5)]
 				}
 			}
 			a.Stale = rng.Intn(4) == 0
@@ -1093,6 +1136,7 @@ func TestVerifClientRegRandom(t *testing.T) {
 	n := vEnvInt("VERIF_TRACES", 200)
 	only := vEnvInt("VERIF_ONLY", -1)
 	w.slow = only >= 0
+	w.abortWait = 150 * time.Millisecond
 	out := make([][]vcrEv, n)
 	scripts := make([]vcrScript, n)
 	for i := 0; i < n; i++ {
